@@ -959,15 +959,15 @@ func ruleL3(c *Ctx) {
 			case fn.Name() == "Call" && fn.Parent() == nil && fnPkgPath(fn) == modPath+"/starlark":
 				// guarded by !is[*EvalError](err): some dominating If whose condition derives from a call to is[...]
 				guarded := false
-				for _, pc := range pathConds(in.Block()) {
-					cond, neg := stripNot(pc.If.Cond)
+				for _, pf := range pathFacts(in.Block()) {
+					cond, neg := pf.Cond, false
 					if call, ok := cond.(*ssa.Call); ok {
-						if cal := call.Call.StaticCallee(); cal != nil && baseName(cal) == "is" && (pc.Branch == neg) {
+						if cal := call.Call.StaticCallee(); cal != nil && baseName(cal) == "is" && (pf.Truth == neg) {
 							guarded = true
 						}
 					}
 					// the same test written as a comma-ok assertion: if _, ok := err.(*EvalError); !ok { ... }
-					if ex, ok := cond.(*ssa.Extract); ok && ex.Index == 1 && pc.Branch == neg {
+					if ex, ok := cond.(*ssa.Extract); ok && ex.Index == 1 && pf.Truth == neg {
 						if ta, ok := ex.Tuple.(*ssa.TypeAssert); ok && ta.CommaOk {
 							if pt, ok := ta.AssertedType.(*types.Pointer); ok && isNamed(pt.Elem(), "starlark", "EvalError") {
 								guarded = true
@@ -1301,8 +1301,8 @@ func capturesCell(call *ssa.Call) bool {
 	if !fromBinding(call.Call.Args[2], "Index") {
 		return false
 	}
-	for _, pc := range pathConds(call.Block()) {
-		cond, _ := stripNot(pc.If.Cond)
+	for _, pf := range pathFacts(call.Block()) {
+		cond, _ := pf.Cond, false
 		if bo, ok := cond.(*ssa.BinOp); ok && bo.Op == token.EQL && fromBinding(bo.X, "Scope") {
 			return true
 		}
